@@ -96,7 +96,13 @@ func genTxProc(r *core.Rng, nstmts int) *txProc {
 		p.Units = append(p.Units, dumpUnit(st, "c"), "COMMIT;")
 		committed = st.clone()
 	}
-	created := 0
+	created, noCreate := 0, false
+	if nstmts > 0 && r.P(40) {
+		// options of the session's own output (how query results are printed) are no part of how an EXISTING table file is
+		// written (a table created by the session takes them as its attributes, by design: none is created then)
+		p.Units = append(p.Units, []string{"SET @@WITHOUT_HEADER TO TRUE;", "SET @@WITHOUT_HEADER TO TRUE;", "SET @@ENCLOSE_ALL TO TRUE;", "SET @@WRITE_DELIMITER TO ';';"}[r.Intn(4)])
+		created, noCreate = 2, true
+	}
 	dml := func(inLoop bool) string {
 		t := &st.Tables[r.Intn(len(st.Tables))]
 		tn := "`" + t.Name + "`"
@@ -189,6 +195,9 @@ func genTxProc(r *core.Rng, nstmts int) *txProc {
 					created++
 				}
 			}
+			if noCreate {
+				created = 2
+			}
 		case 2:
 			p.Units = append(p.Units, "IF 1 = 1 THEN\n  "+dml(false)+"\nELSE\n  DELETE FROM f1;\nEND IF;")
 		case 3:
@@ -224,6 +233,16 @@ func genTxProc(r *core.Rng, nstmts int) *txProc {
 				break
 			}
 		}
+	}
+	// with an output option set, the CSV table with a header line is among the files of the last COMMITs
+	if noCreate {
+		ft := st.Tables[0]
+		st.NextID++
+		v := []string{fmt.Sprint(st.NextID)}
+		for range ft.Cols[1:] {
+			v = append(v, "'opt'")
+		}
+		p.Units = append(p.Units, fmt.Sprintf("INSERT INTO `%s` VALUES (%s);", ft.Name, strings.Join(v, ", ")))
 	}
 	// after a COMMIT, the only change of the last transaction is a REPLACE that gives every existing key its own values in
 	// another spelling (upper case, a blank behind them): values that compare equal are still other values to be written
